@@ -2266,6 +2266,14 @@ func (a *Agent) handleStreamReset(peerID identity.AgentID, frame *protocol.Frame
 		return
 	}
 
+	// A reset ends a shell stream like a close does (where we are the target/server)
+	if a.shellHandler != nil {
+		a.shellHandler.HandleStreamClose(frame.StreamID)
+	}
+
+	// ... and a shell client stream (where we initiated to a remote shell)
+	a.handleShellClientClose(frame.StreamID)
+
 	a.streamMgr.HandleStreamReset(frame.StreamID, reset.ErrorCode)
 }
 
